@@ -155,6 +155,9 @@ class Machine(object):
                             buf = np.zeros(2 * nrows, arr.dtype)
                             buf[::2] = arr
                             arr = buf[::2]
+                    if op.get("readonly") and isinstance(arr, np.ndarray):
+                        arr = arr.copy() if arr.base is None else arr
+                        arr.flags.writeable = False
                     if name == "addcolumn_new":
                         cf.addcolumn(arr, t)
                     else:
@@ -455,7 +458,7 @@ def gen_ops(rnd, nops):
             op["asarray"] = rnd.random() < 0.8
         if n in ("addcolumn_new", "setitem_new", "addcolumn_existing", "setcolumn", "setitem_array", "setattr_array"):
             op["vals"] = [float(rnd.randint(-20, 20)) + rnd.choice([0.0, 0.25, 0.5]) for _ in range(rnd.randint(1, 13))]
-            op["dtype"] = rnd.choice(["f8", "f8", "f8", "i8", "f4", "bool"])
+            op["dtype"] = rnd.choice(["f8", "f8", "f8", "i8", "f4", "bool", ">f8"])      # ">f8": big-endian, as some HDF5 files store them
             if op["dtype"] == "i8":
                 op["vals"] = [float(int(v)) for v in op["vals"]]
             elif op["dtype"] == "bool":
@@ -467,6 +470,7 @@ def gen_ops(rnd, nops):
             op["row"] = rnd.randint(0, 40)
         if n in ("addcolumn_new", "setitem_new"):
             op["strided"] = rnd.choice([0, 0, 1, 2])
+            op["readonly"] = rnd.random() < 0.1          # an array the caller protected (or a memory-mapped one)
         if n == "set_bigarray":
             op["order"] = rnd.choice(["C", "C", "T", "F"])
         if n == "filter":
